@@ -253,8 +253,72 @@ func FromRat(r *big.Rat) Decimal {
 	}
 
 	denom := r.Denom()
+	neg := num.Sign() < 0
 
-	return FromInt(num).Quo(FromInt(denom))
+	// Compute the quotient in integer arithmetic, scaled by a power of ten so
+	// that it has 36 to 38 significant digits, and round it once. Converting
+	// both terms first would round twice and would overflow for terms beyond
+	// the range of a Decimal even when their quotient is representable.
+	//
+	// With t the difference of the bit lengths, the quotient lies strictly
+	// between 2**(t-1) and 2**(t+1).
+	t := num.BitLen() - denom.BitLen()
+	k := 38 - ceilLog10Pow2(t+1)
+
+	if -k > maxUnbiasedExponent {
+		return inf(neg)
+	}
+
+	if k > exponentBias+41 {
+		return zero(neg)
+	}
+
+	n := new(big.Int).Abs(num)
+	d := denom
+
+	if k > 0 {
+		n.Mul(n, new(big.Int).Exp(big.NewInt(10), big.NewInt(int64(k)), nil))
+	} else if k < 0 {
+		d = new(big.Int).Mul(d, new(big.Int).Exp(big.NewInt(10), big.NewInt(int64(-k)), nil))
+	}
+
+	rem := new(big.Int)
+	n.QuoRem(n, d, rem)
+
+	trunc := int8(0)
+	if rem.Sign() != 0 {
+		trunc = 1
+	}
+
+	var sig uint128
+
+	b := n.Bits()
+	for i := len(b) - 1; i >= 0; i-- {
+		sig = sig.lsh(bits.UintSize)
+		sig = sig.or64(uint64(b[i]))
+	}
+
+	sig, exp := DefaultRoundingMode.reduce128(neg, sig, int16(exponentBias-k), trunc)
+
+	if exp > maxBiasedExponent {
+		return inf(neg)
+	}
+
+	return compose(neg, sig, exp)
+}
+
+// ceilLog10Pow2 returns the smallest integer that is not less than
+// log10(2**n).
+func ceilLog10Pow2(n int) int {
+	// 30103/100000 is slightly above log10(2); the difference only matters
+	// for bit lengths far beyond anything that fits in memory.
+	p := int64(n) * 30103
+
+	if p > 0 {
+		return int((p + 99999) / 100000)
+	}
+
+	return int(p / 100000)
 }
 
 // FromUint32 converts i into a Decimal.
